@@ -310,7 +310,7 @@ func (x *Exec) invoke(st *State, fr *Frame, in ssa.Instruction, call *ssa.CallCo
 	}
 	name := call.Method.Name()
 	// method contracts on interface methods: "func <Iface>.<Method>"
-	if named, ok := call.Value.Type().(*types.Named); ok {
+	if named, ok := call.Value.Type().(*types.Named); ok && named.Obj().Pkg() != nil {
 		if fc := x.eng.contracts.Funcs[ckey(named.Obj().Pkg().Path(), named.Obj().Name()+"."+name)]; fc != nil {
 			x.applyContractSig(st, fr, fc, call.Signature(), append([]Val{recv}, args...), []string{"recv"}, in, k)
 			return
@@ -703,7 +703,9 @@ func (x *Exec) doAppend(st *State, fr *Frame, in ssa.Instruction, call *ssa.Call
 	}
 	x.fork(st, fits,
 		func(s1 *State) {
-			x.frameCheckRef(s1, fr, in, s.Arr, "array (append in place)")
+			if !x.classAllowed("E|" + typeKey(s.Elem)) {
+				x.frameCheckRef(s1, fr, in, s.Arr, "array (append in place)")
+			}
 			write(s1, s.Arr, s.Off)
 			k(s1, Outcome{Vals: []Val{Slice{s.Arr, s.Off, newLen, s.Cap, s.Elem}}})
 		},
